@@ -606,10 +606,12 @@ class BasePeripheralsImpl:
             try:
                 with open(filespec, 'wb') as f:
                     f.write(block)
-            except OSError as e:
+            except (OSError, ValueError) as e:
+                # ValueError: a file name open() itself refuses (NUL)
                 raise DeviceError(
                     error_code=Device.Error.OP_FAILED,
-                    error_msg=f'Cannot write {filespec}: {e.strerror}',
+                    error_msg=f'Cannot write {filespec}: '
+                              f'{getattr(e, "strerror", None) or e}',
                 )
         else:
             if self.cur_segment:
@@ -634,10 +636,11 @@ class BasePeripheralsImpl:
                     error_code=Device.Error.FILE_NOT_FOUND,
                     error_msg=f'No such file or directory: {filespec}',
                 )
-            except OSError as e:
+            except (OSError, ValueError) as e:
                 raise DeviceError(
                     error_code=Device.Error.OP_FAILED,
-                    error_msg=f'Cannot read {filespec}: {e.strerror}',
+                    error_msg=f'Cannot read {filespec}: '
+                              f'{getattr(e, "strerror", None) or e}',
                 )
             self.terminal.call('set_mem_block', block, offset)
         else:
@@ -725,10 +728,11 @@ class BasePeripheralsImpl:
                 error_code=Device.Error.FILE_NOT_FOUND,
                 error_msg=f'No such file or directory: {filespec}',
             )
-        except OSError as e:
+        except (OSError, ValueError) as e:
             raise DeviceError(
                 error_code=Device.Error.OP_FAILED,
-                error_msg=f'Cannot delete {filespec}: {e.strerror}',
+                error_msg=f'Cannot delete {filespec}: '
+                          f'{getattr(e, "strerror", None) or e}',
             )
 
     # misc
